@@ -20,7 +20,8 @@ class AsyncSocket(base_socket.BaseSocket):
             raise exceptions.QueueEmpty()
         if packets == [None]:
             return []
-        while True:
+        # never return more packets than a client accepts in one payload
+        while len(packets) < payload.Payload.max_decode_packets:
             try:
                 pkt = self.queue.get_nowait()
                 self.queue.task_done()
